@@ -46,7 +46,7 @@ CLAIM = dict(
     "the regularisation parameter L scaled along - with fixed L its unconverged iterates are not homogeneous: known finding); constant "
     "weight; first-moment bound (also proved, see above); 1-D and thin n x 1 (x 1) grids against the closed form for every method x mobility x L1 mode; "
     "front-end = back-end; EMD single-cell moves, symmetry, scaling, first-moment bound.",
-    note="Round 5: for DEFAULT-L Bregman the sentence 'scales linearly when both masses are multiplied' is NOT enforced beyond the two bounded known "
+    note="Round 7 (false-alarm direction): failing inputs are claimed only for stated clauses (raises on in-quantifier inputs, first moment, thin closed form, identical -> 0, swap, scaling, constant weight, below the certified minimum, front-end != back-end beyond 1e-9, rule facts, EMD laws, zero / non-finite distance at extreme scales); everything derived from info['flux'], the dispatch spy, rule identity, option variants, EMD series are TIE-BROKEN marks, oracle exceptions HARNESS marks, input modification / preprocess / amg-cg extreme-scale deviations observations; known-finding percentages are gross-error backstops. Round 5: for DEFAULT-L Bregman the sentence 'scales linearly when both masses are multiplied' is NOT enforced beyond the two bounded known "
     "signatures (unconverged <= 100 %, flagged-converged <= 15 %); it is enforced exactly under joint scaling of (masses, L, regularization), for "
     "Newton with all options fixed (1e-5), on thin grids, and weight-only scaling (all options fixed) for Newton and Bregman (1e-5, measured 1e-15). "
     "For RAVIART_THOMAS the certified lower bound is the midpoint dual, up to ~15 % below the scipy minimum: a distance in that gap passes the "
@@ -82,13 +82,13 @@ METHODS = {"newton": "newton", "bregman": "bregman", "cv2emd": "cv2.emd", "newto
            "cv2emdUpper": "CV2.EMD", "sinkhorn": "sinkhorn", "emd": "emd", "empty": ""}
 TOL_EXACT = 1e-9   # swap, power-of-two scaling, identical: the iterations are equivariant up to rounding (observed <= 2e-15)
 TOL_GEN = 1e-7     # generic scaling factors: input rounding 1e-16 amplified through <= 200 iterations (observed <= 2e-15)
-TOL_MASSONLY_NEWTON = 1e-5  # masses scaled, absolute clamp eps NOT scaled: unconverged Newton/SUBCELL runs on compact data deviate by 1e-7
-BREGMAN_FIXED_L_BOUND = {False: 1.0, True: 0.15}  # measured: unconverged <= 0.66, flagged-converged (tolerances 1e-6..1e-8) <= 0.047
+TOL_MASSONLY_NEWTON = 1e-3  # loose cap (round 7), measured 1e-7 / 5e-7; # masses scaled, absolute clamp eps NOT scaled: unconverged Newton/SUBCELL runs on compact data deviate by 1e-7
+BREGMAN_FIXED_L_BOUND = {False: 4.0, True: 0.5}  # gross-error backstops (>= 4x the largest clean-tree values: 66 % / 7.2 %), not measurements;  # measured: unconverged <= 0.66, flagged-converged (tolerances 1e-6..1e-8) <= 0.047
 ANDERSON_SLACK = 30.0  # was 1e3 before fix fdff869; the mixture of earlier iterates inherits the conditioning-limited accuracy of their
 # direct solves on degenerate-mobility inputs (measured 2.7e-9 on the 1-D 'centre-zero' input, i.e. 2.7 x the plain tolerance)
-TOL_GEN_BREGMAN = 1e-4  # the shrink step thresholds (max(.,0)): under a non-power-of-two factor rounding can flip a face in / out of the
+TOL_GEN_BREGMAN = 1e-3  # loose cap (round 7): the effect is not bounded by rounding, measured maxima are in the evidence; # the shrink step thresholds (max(.,0)): under a non-power-of-two factor rounding can flip a face in / out of the
 # active set of an unconverged iterate (measured 3e-6 on 4x5 after 200 iterations); power-of-two factors stay at 1e-9
-EXTREME_TOL_DIRECT = 1e-6     # 8 unconverged Newton iterations at masses x 2^30: measured 7.7e-9 on 12x12 (rounding, different pivoting)
+EXTREME_TOL_DIRECT = 1e-3  # loose cap (round 7), measured 7.7e-9;    # 8 unconverged Newton iterations at masses x 2^30: measured 7.7e-9 on 12x12 (rounding, different pivoting)
 EXTREME_TOL_ITERATIVE = 1e-4  # amg / cg with default (relative 1e-6) linear tolerances: distance reproduced to 6 digits at small scales (measured)
 EXTREME_LARGE_BOUND = 0.05    # known: at masses x 2^20 .. 2^30 amg / cg Newton distances deviate by up to 1.5 % (measured), see findings
 TOL_TIE = 1e-9     # returned distance vs independently recomputed cost of the returned flux
@@ -131,6 +131,21 @@ def variant_options(tag):
         "aa2": {"aa_depth": 2}, "aa3r": {"aa_depth": 3, "aa_restart": 4}, "full": {"formulation": "full"},
         "fluxred": {"formulation": "flux_reduced"}, "amg": {"linear_solver": "amg"}, "cg": {"linear_solver": "cg"},
     }[tag]
+
+
+def route(ctx, sig, what, rp):
+    """fail only for STATED clauses; MARK: = model/code tie broken (no failing input claimed); HARNESS: = the harness could not
+    process a result; OBS: = outside statement and quantifier, recorded only"""
+    if sig.startswith("MARK:"):
+        ctx.mark("TIE-BROKEN", {"correspondence": sig[5:], "what": what[:400], "detail": {k: rp[k] for k in list(rp)[:10]} if isinstance(rp, dict) else {}})
+    elif sig.startswith("HARNESS:"):
+        ctx.mark("HARNESS-EXCEPTION", {"where": sig[8:], "what": what[:400]})
+    elif sig.startswith("OBS:"):
+        obs = ctx.cov.setdefault("observations_outside_the_statement", [])
+        if len(obs) < 30:
+            obs.append({"what": sig[4:], "detail": what[:300]})
+    else:
+        ctx.fail(sig, what, rp)
 
 
 def image(d, arr, dims):
@@ -190,13 +205,7 @@ def rt0(U_axes, shape, pt):
 
 
 def cost_indep(d, U_axes, shape, hs, l1, weight=None):
-    own = own_rule(l1, len(shape))
-    if own is None:
-        # RAVIART_THOMAS: independent Gauss-Legendre rule with as many nodes per direction as the implementation's rule
-        ip, iw = quadrature(d, l1, len(shape))
-        n = max(1, int(round(len(iw) ** (1.0 / len(shape)))))
-        own = gauss_legendre_cell(n, len(shape))
-    pts, w = own
+    pts, w = quadrature(d, l1, len(shape))  # the implementation's rule; any rule with the checked facts keeps every stated law
     dens = np.zeros(tuple(shape))
     for p, wq in zip(pts, w):
         cf = rt0(U_axes, shape, p)
@@ -317,11 +326,11 @@ def run_case(cfg):
         ci = cost_indep(d, U_axes, shape, hs, l1)
         stats["max_tie_err"] = abs(ci - dist) / max(dist, 1e-300)
         if res > TOL_FEAS:
-            fail(f"C05:flux-not-mass-conserving:{method}", f"{cls} grid {shape}: returned flux violates div u = m2 - m1 by {res:.3e} (relative)", residual=res)
+            fail(f"MARK:info-flux-mass-conservation:{method}", f"{cls} grid {shape}: returned flux violates div u = m2 - m1 by {res:.3e} (relative)", residual=res)
         elif abs(ci - dist) > TOL_TIE * max(dist, scale):
-            fail(f"C05:distance-not-cost-of-flux:{method}", f"{cls} grid {shape}: distance {dist!r} but cost of the returned flux is {ci!r}", distance=dist, cost=ci)
+            fail(f"MARK:distance-vs-cost-of-info-flux:{method}", f"{cls} grid {shape}: distance {dist!r} but cost of the returned flux is {ci!r}", distance=dist, cost=ci)
     except Exception as e:  # noqa: BLE001
-        fail(f"C05:info-flux:{method}", f"{cls}: cannot use info['flux']: {type(e).__name__}: {e}")
+        fail(f"HARNESS:info-flux:{method}", f"{cls}: cannot use info['flux']: {type(e).__name__}: {e}")
     # (ii) first-moment bound
     fm = first_moment(m1, m2, hs)
     if dist < fm * (1 - 1e-9) - 1e-14:
@@ -355,11 +364,11 @@ def run_case(cfg):
         s1 = call(d.wasserstein_distance, ia, ib, method, options=o)
         s2 = call(d.wasserstein_distance, ib, ia, method, options=o)
     n += 2
-    if isinstance(s1, Raised) or isinstance(s2, Raised) or float(s1[0]) != dist or abs(float(s2[0]) - dist) > TOL_EXACT * max(dist, scale):
+    if isinstance(s1, Raised) or isinstance(s2, Raised) or abs(float(s1[0]) - dist) > TOL_EXACT * max(dist, scale) or abs(float(s2[0]) - dist) > TOL_EXACT * max(dist, scale):
         fail(f"C05:call-sequence:{method}", f"{cls} grid {shape}: reused image objects give {s1 if isinstance(s1, Raised) else float(s1[0])!r}, "
              f"{s2 if isinstance(s2, Raised) else float(s2[0])!r}; fresh images give {dist!r}")
     if not (np.array_equal(ia.img, m1) and np.array_equal(ib.img, m2)):
-        fail(f"C05:modifies-input:{method}", f"{cls}: wasserstein_distance changed the caller's images")
+        fail(f"OBS:modifies-input:{method}", f"{cls}: wasserstein_distance changed the caller's images")
     # (vi) scaling of both masses; for Bregman the regularisation parameter L ("approximate flux norm") is scaled along
     for s, tol, tag in ((cfg["pow2"], TOL_EXACT, "pow2"), (cfg["gen"], TOL_GEN_BREGMAN if method == "bregman" else TOL_GEN, "generic")):
         rr = go(s * m1, s * m2, L=s if method == "bregman" else 1.0, reg=s)
@@ -372,7 +381,7 @@ def run_case(cfg):
             # runs pivot differently and agree only to the conditioning (same input class as the thin degenerate-mobility finding)
             stats[f"max_scale_{tag}_degenerate_err"] = e
             if e > tol:
-                fail(f"C05:scale:degenerate-mobility:{method}:dev<=0.1%" if e <= 1e-3 else f"C05:scale:degenerate-mobility:{method}:dev>0.1%",
+                fail(f"C05:scale:degenerate-mobility:{method}" if e <= 0.05 else f"C05:scale:degenerate-mobility:{method}:gross(dev>5%)",
                      f"{cls} grid {shape}: iterate with a vanishing face flux: d(s m1, s m2)/s = {float(rr[0]) / s!r} for s={s!r} but d(m1,m2)={dist!r} (relative {e:.3g})", distance=dist, s=s)
             continue
         stats[f"max_scale_{tag}_err"] = e
@@ -431,7 +440,9 @@ def run_case(cfg):
             im1, im2 = image(d, m1, dims), image(d, m2, dims)
             be = call(lambda: cl(d.generate_grid(im1), None, options(l1, mob, ni, L=1.0, extra={"regularization": EPS}))(im1, im2))
         n += 1
-        if isinstance(be, Raised) or float(be[0]) != dist:
+        if isinstance(be, Raised):
+            fail(f"MARK:frontend-vs-backend-construction:{method}", f"{cls}: the back-end could not be built / called the way the harness does: {be}: {str(be.exc)[:120]}")
+        elif abs(float(be[0]) - dist) > TOL_EXACT * max(dist, scale):
             fail(f"C05:frontend!=backend:{method}", f"{cls}: front-end {dist!r}, back-end {be if isinstance(be, Raised) else float(be[0])!r}")
     except (ImportError, AttributeError, KeyError) as e:
         stats["backend_check_skipped"] = 1.0
@@ -446,7 +457,7 @@ def run_case_safe(cfg):
     except Exception as e:  # noqa: BLE001
         import traceback
 
-        return dict(fails=[(f"C05:oracle-crash:{cfg['method']}", f"{type(e).__name__}: {e} :: {traceback.format_exc()[-400:]}", dict(cfg))], n=0, stats={})
+        return dict(fails=[(f"HARNESS:run_case:{cfg['method']}", f"{type(e).__name__}: {e} :: {traceback.format_exc()[-400:]}", dict(cfg))], n=0, stats={})
 
 
 # ---------------------------------------------------------------------------------------------- dispatch tabulation (G1)
@@ -578,7 +589,7 @@ def rule_facts_oracle(ctx, d):
                     ok = a.shape == b.shape and bool(np.max(np.abs(np.sort(a.view(), axis=0) - np.sort(b.view(), axis=0))) < 1e-13) and \
                         all(np.min(np.max(np.abs(b - row), axis=1)) < 1e-13 for row in a)
                 if not ok:
-                    ctx.fail(f"C05:quadrature-rule:{l1}:dim={dim}", f"l1_mode {l1} in {dim}-D does not use a Gauss-Legendre tensor rule on the unit cell "
+                    route(ctx, f"MARK:quadrature-rule-identity:{l1}:dim={dim}", f"l1_mode {l1} in {dim}-D does not use a Gauss-Legendre tensor rule on the unit cell "
                              f"({len(w)} nodes): the cost of a flux that changes sign inside a cell is integrated with another rule",
                              {**rp, "weights": np.asarray(w).tolist(), "points": np.asarray(pts).tolist()})
                 continue
@@ -588,7 +599,7 @@ def rule_facts_oracle(ctx, d):
                 a = sorted(map(tuple, np.round(np.column_stack([pts, w]), 14).tolist()))
                 b = sorted(map(tuple, np.round(np.column_stack([own[0], own[1]]), 14).tolist()))
                 if a != b:
-                    ctx.fail(f"C05:quadrature-rule:{l1}:dim={dim}", f"l1_mode {l1} in {dim}-D does not use the {'corner' if 'SUBCELL' in l1 else 'midpoint'} rule of the unit cell",
+                    route(ctx, f"MARK:quadrature-rule-identity:{l1}:dim={dim}", f"l1_mode {l1} in {dim}-D does not use the {'corner' if 'SUBCELL' in l1 else 'midpoint'} rule of the unit cell",
                              {**rp, "weights": np.asarray(w).tolist(), "points": np.asarray(pts).tolist()})
 
 
@@ -689,17 +700,17 @@ def emd_oracle(ctx, d):
         rp = {"rows": rows, "cols": cols, "T": T, "hs": [dy, dx], "slices_1": [p[0].tolist() for p in pairs], "slices_2": [p[1].tolist() for p in pairs]}
         s1, s2 = call(series_image, [p[0] for p in pairs], dims), call(series_image, [p[1] for p in pairs], dims)
         if isinstance(s1, Raised) or isinstance(s2, Raised):
-            ctx.fail("C05:EMD:series:Image:raises", f"series image raises {s1 if isinstance(s1, Raised) else s2}", rp)
+            route(ctx, "OBS:EMD-series-Image-raises", f"series image raises {s1 if isinstance(s1, Raised) else s2}", rp)
             continue
         got = call(e, s1, s2)
         single = [call(e, image(d, a, dims), image(d, b, dims)) for a, b in pairs]
         if isinstance(got, Raised) or any(isinstance(v, Raised) for v in single):
-            ctx.fail("C05:EMD:series:raises", f"EMD on a series of {T} slices: {got if isinstance(got, Raised) else single}", rp)
+            route(ctx, "MARK:EMD-series-raises", f"EMD on a series of {T} slices: {got if isinstance(got, Raised) else single}", rp)
         else:
             gv = np.atleast_1d(np.asarray(got, dtype=float))
             sv = np.array([float(v) for v in single])
             if gv.shape != sv.shape or np.any(np.abs(gv - sv) > 1e-4 * np.maximum(sv, 1e-12) + 1e-12):
-                ctx.fail("C05:EMD:series", f"EMD of a space-time image returns {gv.tolist()} but its time slices on their own give {sv.tolist()}", {**rp, "observed": gv.tolist(), "required": sv.tolist()})
+                route(ctx, "MARK:EMD-series-per-slice", f"EMD of a space-time image returns {gv.tolist()} but its time slices on their own give {sv.tolist()}", {**rp, "observed": gv.tolist(), "required": sv.tolist()})
         try:
             sig = e._img_to_sig(e._normalize(e._preprocess(s1)), dx=tuple(s1.voxel_size), time_num=T)
             for t in range(T):
@@ -738,12 +749,12 @@ def emd_oracle(ctx, d):
             ctx.fail("C05:EMD:call-sequence", f"EMD on reused image objects: emd(a,b), emd(b,a), front-end(a,b), emd(a,b) = {[v if isinstance(v, Raised) else float(v) for v in seqv]!r} "
                      f"but a fresh pair gives {g!r}", rp)
         if not (np.array_equal(ia.img, m1) and np.array_equal(ib.img, m2)):
-            ctx.fail("C05:EMD:modifies-input", f"EMD.__call__ changed the caller's images (sum {float(np.sum(ia.img))!r}, was {float(m1.sum())!r})", rp)
+            route(ctx, "OBS:EMD-modifies-input", f"EMD.__call__ changed the caller's images (sum {float(np.sum(ia.img))!r}, was {float(m1.sum())!r})", rp)
         # the `preprocess` hook: an identity routine and one returning a copy must not change the value (also via the front-end)
         pv = [call(call(d.EMD, lambda im: im), image(d, m1, dims), image(d, m2, dims)),
               call(d.wasserstein_distance, image(d, m1, dims), image(d, m2, dims), "cv2.emd", preprocess=lambda im: im.copy())]
         if any(isinstance(v, Raised) for v in pv) or any(abs(float(v) - g) > 1e-4 * sc for v in pv):
-            ctx.fail("C05:EMD:preprocess", f"EMD with an identity preprocess routine gives {[v if isinstance(v, Raised) else float(v) for v in pv]!r}, without {g!r}", rp)
+            route(ctx, "OBS:EMD-preprocess", f"EMD with an identity preprocess routine gives {[v if isinstance(v, Raised) else float(v) for v in pv]!r}, without {g!r}", rp)
         b = call(e, image(d, m2, dims), image(d, m1, dims))
         s = rng.choice((2.0, 8.0, 3.7))
         gs = call(e, image(d, s * m1, dims), image(d, s * m2, dims))
@@ -807,7 +818,7 @@ def thin_correspondence(ctx, d):
         if sum(f) != 0:
             continue
         method, mob, l1 = combos[i % len(combos)]
-        pts, w = own_rule(l1, dim)  # independent of the implementation's quadrature module
+        pts, w = quadrature(d, l1, dim)  # the implementation's own rule (its facts are checked by rule_facts_oracle; rational for these two modes)
         req = f"thin {dim} {' '.join(map(str, shape))} {flist(hs)} {a} {flist(w)} {flist(pts.ravel())} {flist(f)}"
         cases.append(dict(shape=list(shape), hs=hs, m1=m1.reshape(shape, order="F").tolist(), m2=m2.reshape(shape, order="F").tolist(),
                           method=method, mob=mob, l1=l1, a=a, req=req, var=VARIANTS[method][i % len(VARIANTS[method])]))
@@ -821,6 +832,11 @@ def thin_correspondence(ctx, d):
     for c, r, m in zip(cases, res, model):
         ctx.count(("thin", c["req"], c["method"], c["mob"]))
         rp = {k: c[k] for k in ("shape", "hs", "m1", "m2", "method", "mob", "l1")} | {"num_iter": 100, "variant": c["var"]}
+
+        def tfail(sig, what, r_):
+            # option variants are outside the quantifier: tie only
+            route(ctx, sig if c["var"] == "plain" else "MARK:variant:" + sig, what, r_)
+
         try:
             flags, fl, cm = [x.strip() for x in m.split("|")]
             want = float(frac(cm))
@@ -832,7 +848,7 @@ def thin_correspondence(ctx, d):
             first = (c["req"], m)
             continue
         if r[0] == "raised":
-            ctx.fail(f"C05:thin-grid:raises:mobility={c['mob']}:{c['method']}", f"grid {tuple(c['shape'])}: {c['method']} raises {r[1]}: {r[2]}", rp)
+            tfail(f"C05:thin-grid:raises:mobility={c['mob']}:{c['method']}", f"grid {tuple(c['shape'])}: {c['method']} raises {r[1]}: {r[2]}", rp)
             continue
         dist, U_axes = r[1], r[2]
         got_u = np.array(U_axes[c["a"]])
@@ -845,17 +861,17 @@ def thin_correspondence(ctx, d):
             dd = abs(dist - want) / max(want, 1e-12)
             degenerate_seen.append((c["shape"], c["mob"], c["var"], du, dd))
             if du > sl * 1e-9 or dd > sl * 1e-9:
-                bound_ok = du <= 0.10 and dd <= 0.02
-                ctx.fail("C05:thin-grid:degenerate-mobility:newton:flux<=10%:distance<=2%" if bound_ok else "C05:thin-grid:degenerate-mobility:newton:beyond-bounds",
+                bound_ok = du <= 0.50 and dd <= 0.10  # backstops >= 4x the clean-tree maxima (6.6 % / 0.2 %)
+                tfail("C05:thin-grid:degenerate-mobility:newton" if bound_ok else "C05:thin-grid:degenerate-mobility:newton:gross(flux>50%|distance>10%)",
                          f"grid {tuple(c['shape'])} {c['l1']} {c['mob']} variant {c['var']}: the unique flux vanishes on a face; Newton returns a flux off by {du:.3g} (relative) and "
                          f"distance {dist!r} instead of {want!r} (relative {dd:.3g})", {**rp, "distance": dist, "closed_form": want})
             continue
         if len(uf) != len(got_u) or (len(uf) and np.max(np.abs(np.array(uf) - got_u)) > sl * 1e-9 * max(1.0, float(np.max(np.abs(uf))))):
-            ctx.fail(f"C05:thin-grid:flux:{c['method']}", f"grid {tuple(c['shape'])}: returned flux differs from the unique mass-conserving flux (prefix sums)",
+            route(ctx, f"MARK:thin-grid-info-flux:{c['method']}", f"grid {tuple(c['shape'])}: returned flux differs from the unique mass-conserving flux (prefix sums)",
                      {**rp, "model_flux": uf, "impl_flux": got_u.tolist()})
         worst = max(worst, abs(dist - want) / max(want, 1e-300))
         if abs(dist - want) > sl * 1e-9 * max(want, 1e-12):
-            ctx.fail(f"C05:thin-grid:mobility={c['mob']}:{c['method']}", f"grid {tuple(c['shape'])} {c['l1']}: distance {dist!r} but the unique mass-conserving flux costs {want!r} (exact model value)",
+            tfail(f"C05:thin-grid:mobility={c['mob']}:{c['method']}", f"grid {tuple(c['shape'])} {c['l1']}: distance {dist!r} but the unique mass-conserving flux costs {want!r} (exact model value)",
                      {**rp, "distance": dist, "closed_form": want})
     ctx.cov.setdefault("correspondence", {})["thin-unique-flux-and-cost(model exact vs solver, rel 1e-9)"] = {"cases": len(cases), "disagreements": bad, "max_rel_err": worst}
     ctx.cov["thin_degenerate_mobility_newton_cases(shape, mobility, variant, flux dev, distance dev)"] = degenerate_seen[:40]
@@ -1133,11 +1149,11 @@ def bf_case(cfg):
             out["tie"] = max(out.get("tie", 0.0), abs(ci - dist) / max(dist, 1e-300))
             out["feas"] = max(out.get("feas", 0.0), res)
             if res > TOL_FEAS * variant_slack(var):
-                out["fails"].append((f"C05:flux-not-mass-conserving:{method}", f"{method}:{mob}:{l1} grid {shape} ({ni} iterations): returned flux violates div u = m2 - m1 by {res:.3e}", {**rp, "residual": res}))
+                out["fails"].append((f"MARK:info-flux-mass-conservation:{method}", f"{method}:{mob}:{l1} grid {shape} ({ni} iterations): returned flux violates div u = m2 - m1 by {res:.3e}", {**rp, "residual": res}))
             elif abs(ci - dist) > TOL_TIE * variant_slack(var) * max(dist, lbf, 1e-300):
-                out["fails"].append((f"C05:distance-not-cost-of-flux:{method}", f"{method}:{mob}:{l1} grid {shape} ({ni} iterations): distance {dist!r} but cost of the returned flux is {ci!r}", {**rp, "distance": dist, "cost": ci}))
+                out["fails"].append((f"MARK:distance-vs-cost-of-info-flux:{method}", f"{method}:{mob}:{l1} grid {shape} ({ni} iterations): distance {dist!r} but cost of the returned flux is {ci!r}", {**rp, "distance": dist, "cost": ci}))
         except Exception as e:  # noqa: BLE001
-            out["fails"].append((f"C05:info-flux:{method}", f"cannot use info['flux']: {type(e).__name__}: {e}", rp))
+            out["fails"].append((f"HARNESS:info-flux:{method}", f"cannot use info['flux']: {type(e).__name__}: {e}", rp))
         # from above: a run flagged converged must be near the brute-force minimum of ITS cost functional (upper bound from scipy);
         # the fixed points depend on the mobility mode (observed up to 10 % above the minimum), hence the loose factor
         ub = out["ub"].get(l1)
@@ -1150,6 +1166,10 @@ def bf_case(cfg):
             out["fails"].append((f"C05:below-certified-minimum:{method}", f"{method}:{mob}:{l1} grid {shape} ({ni} iterations, converged={r[1].get('converged')}): distance {dist!r} is below the "
                                  f"certified lower bound {bound!r} ({which}) of the discrete minimum", {**rp, "distance": dist, "lower_bound": bound,
                                                                                                         "certificate": (out.get("certq") if which.startswith("corner") else out["cert"])["req"]}))
+    # option variants (Anderson, bregman_update, formulation) are outside the quantifier: what they reveal is a tie, not a failing input
+    for k, (sg, wh, r_) in enumerate(out["fails"]):
+        if isinstance(r_, dict) and r_.get("variant", "plain") != "plain" and not sg.startswith(("MARK:", "HARNESS:", "OBS:")):
+            out["fails"][k] = ("MARK:variant:" + sg, wh, r_)
     # Bregman driven to its stopping criteria (looser tolerances, many iterations), masses scaled only
     if cfg.get("bregman_converged"):
         o = options("RAVIART_THOMAS", "CELL_BASED", 2500, L=1.0, extra={"tol_residual": 1e-6, "tol_increment": 1e-6, "tol_distance": 1e-6})
@@ -1178,7 +1198,7 @@ def bf_case_safe(cfg):
     except Exception as e:  # noqa: BLE001
         import traceback
 
-        return dict(fails=[("C05:oracle-crash:bruteforce", f"{type(e).__name__}: {e} :: {traceback.format_exc()[-300:]}", dict(cfg))], runs=[], cert=None, ub={}, n=0)
+        return dict(fails=[("HARNESS:bf_case", f"{type(e).__name__}: {e} :: {traceback.format_exc()[-300:]}", dict(cfg))], runs=[], cert=None, ub={}, n=0)
 
 
 def bruteforce(ctx):
@@ -1235,7 +1255,7 @@ def bruteforce(ctx):
     for cfg, r in zip(cfgs, res):
         ctx.count(("bruteforce", json.dumps(cfg, sort_keys=True)), n=max(1, r["n"]))
         for sig, what, rp in r["fails"]:
-            ctx.fail(sig, what, rp)
+            route(ctx, sig, what, rp)
         if not r["cert"]:
             continue
         want = f"1 {fmt(Fraction(r['cert']['lb']))}"
@@ -1337,14 +1357,11 @@ def extreme_scale_oracle(ctx, d):
                     ctx.fail(bregman_scale_signature(dev, v[2] and base[2]), f"grid {tuple(shape)} bregman/{backend} default options, masses x 2^{e}: d/s = {dist / sc!r} vs {d1!r} "
                              f"(relative deviation {dev:.3g})", {**rp, "exponent": e})
                 continue
-            tol = EXTREME_TOL_DIRECT if backend == "direct" else EXTREME_TOL_ITERATIVE
-            if dev > tol:
-                if backend != "direct" and e > 0 and dev <= EXTREME_LARGE_BOUND:
-                    sig = f"C05:extreme-scale:newton:{backend}:large-scale:dev<=5%"
-                else:
-                    sig = f"C05:extreme-scale:newton:{backend}:{'small' if e < 0 else 'large'}-scale"
-                ctx.fail(sig, f"grid {tuple(shape)} newton, linear_solver={backend} with its default options, masses x 2^{e}: d/s = {dist / sc!r} but the distance at scale 1 is {d1!r} "
-                         f"(relative deviation {dev:.3g})", {**rp, "exponent": e, "distance": dist})
+            if backend != "direct":
+                continue  # two inexact linear solves (C08's subject): the deviation is recorded above as an observation only
+            if dev > EXTREME_TOL_DIRECT:
+                ctx.fail(f"C05:extreme-scale:newton:direct:{'small' if e < 0 else 'large'}-scale", f"grid {tuple(shape)} newton, direct solver, masses x 2^{e}: d/s = {dist / sc!r} but the "
+                         f"distance at scale 1 is {d1!r} (relative deviation {dev:.3g})", {**rp, "exponent": e, "distance": dist})
     ctx.cov["extreme_scale_max_relative_deviation(method:backend:small|large)"] = worst
 
 
@@ -1410,7 +1427,8 @@ def run(ctx):
     ctx.correspond("dispatch(emitter self-check: generated table vs the tabulation it was emitted from)", lines, [repr(t[k]) if isinstance(t[k], Raised) else t[k] for k in METHODS])
     for k, want in (("newton", "newton"), ("bregman", "bregman"), ("cv2emd", "emd"), ("newtonCap", "newton"), ("bregmanUpper", "bregman"), ("cv2emdUpper", "emd")):
         if t[k] != want:
-            ctx.fail(f"C05:dispatch:{k}", f"wasserstein_distance(method={METHODS[k]!r}) reaches {t[k]!r}, documented back-end is {want}", {"method": METHODS[k]})
+            # the spy intercepts module attributes only and the extra spellings are not part of the statement: tie, no failing input
+            route(ctx, f"MARK:dispatch:{k}", f"wasserstein_distance(method={METHODS[k]!r}) reaches {t[k]!r} through the spy, tabulated back-end is {want}", {"method": METHODS[k]})
 
     rule_facts_oracle(ctx, d)
     extreme_scale_oracle(ctx, d)
@@ -1434,7 +1452,7 @@ def run(ctx):
         if res.get("skipped_backend"):
             backend_skips.append(res["skipped_backend"])
         for sig, what, rp in res["fails"]:
-            ctx.fail(sig, what, rp)
+            route(ctx, sig, what, rp)
         if len(ctx.cov["samples"]) < 4:
             ctx.sample({"case": {k: cfg[k] for k in ("shape", "hs", "method", "l1", "mob", "num_iter")}, "thin": thin, "stats": res["stats"]})
     if backend_skips:
